@@ -248,6 +248,16 @@ def o_c02(spec, obs):
 
 
 # ------------------------------------------------------------------------------- C14
+@kind("c14_schedule")
+def k_c14s(spec):
+    from aioswitcher.schedule.parser import SwitcherSchedule
+
+    try:
+        return {"result": SwitcherSchedule("1", spec["recurring"], set(), spec["args"][0], spec["args"][1]).duration}
+    except Exception as e:  # noqa: BLE001
+        return exc_name(e)
+
+
 @oracle("C14")
 def o_c14(spec, obs):
     import datetime as dt
@@ -676,11 +686,18 @@ def k_c11(spec):
     from aioswitcher.schedule import tools
 
     out = {}
-    with Env(spec):
+    two = spec.get("first_text") is not None
+    with Env(dict(spec, clock=spec["clock"][:1] if two else spec["clock"])) as env:
         try:
+            if two:
+                try:
+                    tools.time_to_hexadecimal_timestamp(spec["first_text"])
+                except Exception:  # noqa: BLE001
+                    pass
+                env.traveller.move_to(float(spec["clock"][1]))
             enc = tools.time_to_hexadecimal_timestamp(spec["text"])
             out["enc"] = enc
-            if spec["mode"] == "roundtrip":
+            if spec["mode"] in ("roundtrip", "second"):
                 out["dec"] = tools.hexadecimale_timestamp_to_localtime(enc.encode())
             # ground truth through zoneinfo, independent of the library and of libc
             import zoneinfo
@@ -691,7 +708,7 @@ def k_c11(spec):
             out["v"] = v
             if v is not None:
                 out["v_local"] = dt.datetime.fromtimestamp(v, z).strftime("%Y-%m-%d %H:%M:%S")
-                out["now_local_date"] = dt.datetime.fromtimestamp(spec["clock"][0], z).strftime("%Y-%m-%d")
+                out["now_local_date"] = dt.datetime.fromtimestamp(spec["clock"][1 if two else 0], z).strftime("%Y-%m-%d")
         except Exception as e:  # noqa: BLE001
             out.update(exc_name(e))
     return out
@@ -721,8 +738,12 @@ def k_c13(spec):
     from aioswitcher.schedule import tools, Days
 
     out = {}
-    with Env(spec):
+    two = bool(spec.get("second"))
+    with Env(dict(spec, clock=spec["clock"][:1] if two else spec["clock"])) as env:
         try:
+            if two:
+                tools.pretty_next_run(spec["start"], {Days[n] for n in spec["days"]})
+                env.traveller.move_to(float(spec["clock"][1]))
             out["result"] = tools.pretty_next_run(spec["start"], {Days[n] for n in spec["days"]})
         except Exception as e:  # noqa: BLE001
             out.update(exc_name(e))
@@ -738,7 +759,7 @@ def o_c13(spec, obs):
     disp = ["Monday", "Tuesday", "Wednesday", "Thursday", "Friday", "Saturday", "Sunday"]
     start = spec["start"]
     days = [names.index(n) for n in spec["days"]]
-    now = dt.datetime.fromtimestamp(spec["clock"][0], zoneinfo.ZoneInfo(spec["zone"]))
+    now = dt.datetime.fromtimestamp(spec["clock"][1 if spec.get("second") else 0], zoneinfo.ZoneInfo(spec["zone"]))
     h, m = [int(x) for x in start.split(":")]
     if not days:
         exp = "Due today at " + start
@@ -1035,8 +1056,9 @@ def k_api_life(spec):
             if up and server is None:
                 server = await asyncio.start_server(handle, "127.0.0.1", port)
             if not up and server is not None:
+                # stop listening (connections that are already open stay open; wait_closed would wait for them)
                 server.close()
-                await server.wait_closed()
+                await asyncio.sleep(0.02)
                 server = None
 
         cls = api_mod.SwitcherType1Api if spec["api"] == 1 else api_mod.SwitcherType2Api
